@@ -2,10 +2,12 @@ def _proj(op, line):
     w = line.split()
     if w and w[0] in ("ok", "err"):
         return "nopanic"
+    if op.startswith("round ") and w and w[0] == "obs":
+        return "nopanic"      # family sockj: the round is judged by the monitor (no panic, still serving)
     return line
 
 PROPS["C09"] = {
-    "families": {"robust": {"quick": 120, "thorough": 6000}},
+    "families": {"robust": {"quick": 120, "thorough": 6000}, "sockj": {"quick": 4, "thorough": 100}},
     "mon_clauses": ["C09."],
     "project": _proj,
     "independent_ops": True,
@@ -14,9 +16,15 @@ PROPS["C09"] = {
              "of ParseSettings (C09_settings_total), with decided witnesses that the pinned originals did fault (empty integer, BodyLength overflow, missing CheckSum, XMLDataLen, setting outside a section). "
              "Every entry point of the REAL code (parse with none/app/transport+app dictionaries + every typed getter, validate against shipped dictionaries, ParseSettings, "
              "datadictionary.ParseSrc, a session in six states fed raw bytes and then probed with a TestRequest) is run on hostile bytes under recover + timeout. "
-             "Partial: only the modelled index arithmetic is proved safe; nil-map / library panics elsewhere are reachable only by the generated runs.",
+             "Partial: only the modelled index arithmetic is proved safe; nil-map / library panics elsewhere are reachable only by the generated runs. "
+             "SAMPLED socket layer (family `sockj`): a real quickfix.NewAcceptor (two configured sessions) with a real initiator connected through the harness's TCP proxy receives raw hostile connections "
+             "before and while the counterparty is connected: random bytes, truncated Logons, messages for unknown sessions (with and without sub/location IDs), huge / negative / empty / overflowing BodyLength, "
+             "framed first messages without CompIDs, a second Logon for the connected session, non-Logon first messages, and a second session that logs on for real and then sends framed and unframed rubbish. "
+             "Decided by the monitor: no recovered panic in a connection handler (acceptor log), no crashed worker process, the real counterparty still logs on and every application message of both directions "
+             "is delivered (`C09.sock_not_serving{who=real}`), and after all of it the acceptor answers the second session's Logon and TestRequest on a new connection (`{who=J}`).",
     "note": "Lean kernel + standard axioms; models tied to the code by the frame / codec / val / dict families; regexp, encoding/xml, AddSession validation and the dictionary validator are executed, not proved total",
     "rule": "seeded hostile inputs: random bytes over the FIX alphabet, grammar-built messages with 1-2 mutations (truncate, drop CheckSum, bad/huge/negative/empty BodyLength, flipped byte, duplicated field, "
-            "empty value, XMLData with wrong length, no SOH, broken tag, huge group count); settings texts and dictionary XML assembled from fragments; distinct = distinct byte strings",
-    "assumptions": ["a hang is a 5-10 s timeout of one call", "a fatal runtime error (stack overflow) would kill the harness and is reported as a broken run"],
+            "empty value, XMLData with wrong length, no SOH, broken tag, huge group count); settings texts and dictionary XML assembled from fragments; distinct = distinct byte strings; "
+            "sockj: one seeded round per case with 2-8 hostile connections of 9 kinds next to a live initiator/acceptor pair, each round in its own worker process",
+    "assumptions": ["a hang is a 5-10 s timeout of one call", "sockj: scheduler and TCP timing are outside the model; bounded waits that ran out are repeated up to twice before they are reported", "a fatal runtime error (stack overflow) would kill the harness and is reported as a broken run"],
 }
